@@ -29,6 +29,11 @@ type c16Step struct {
 	Limit   int  `json:"limit,omitempty"`
 	RevSel  int  `json:"revsel,omitempty"`
 	CountOn bool `json:"count_only,omitempty"`
+	// After / Until: the lower / upper bound is pool key K / K2 followed by a zero byte — "immediately after that key":
+	// the start of the next page of a paginated list, the end of a range that covers exactly one key
+	After bool `json:"after,omitempty"`
+	Until bool `json:"until,omitempty"`
+	K2    int  `json:"key2,omitempty"`
 	// unsupported shape variant
 	U int `json:"u,omitempty"`
 }
@@ -75,6 +80,11 @@ func genC16(t *rapid.T) interface{} {
 			}
 			s.RevSel = rapid.IntRange(-3, 30).Draw(t, "revsel")
 			s.CountOn = DrawBool(t, 15, "countonly")
+			if !s.Point {
+				s.After = DrawBool(t, 30, "afterKey")
+				s.Until = DrawBool(t, 15, "untilKey")
+				s.K2 = DrawIntn(t, len(c.Keys), "key2")
+			}
 		default:
 			s.Kind = "unsupported"
 			s.U = DrawIntn(t, len(c16Unsupported), "u")
@@ -452,6 +462,14 @@ func runC16(ci interface{}, st *CaseStats) error {
 				continue
 			}
 			a, b := bounds[s.Start%len(bounds)], bounds[s.End%len(bounds)]
+			if s.After {
+				a = append([]byte(key), 0)
+				st.Label("range-starts-immediately-after-a-key")
+			}
+			if s.Until {
+				b = append([]byte(keys[s.K2%len(keys)]), 0)
+				st.Label("range-ends-immediately-after-a-key")
+			}
 			if bytes.Compare(a, b) > 0 {
 				a, b = b, a
 			}
@@ -657,6 +675,40 @@ func probeC16UnguardedDeleteMissing() (bool, string) {
 	return false, ""
 }
 
+// probeC16ContinueKey: kube-apiserver pages a list by asking for the range that starts at lastKey+"\x00"
+func probeC16ContinueKey() (bool, string) {
+	env, srv, err := c16ProbeEnv()
+	if err != nil {
+		return false, err.Error()
+	}
+	defer env.Close()
+	ctx := context.Background()
+	for _, k := range []string{"pods/a", "pods/b", "pods/c"} {
+		if _, err := srv.Txn(ctx, txnCreate([]byte(FullKey(k)), []byte("x"))); err != nil {
+			return false, err.Error()
+		}
+	}
+	WaitCommitted(env.B, env.Init+3, 5*time.Second)
+	end := backend.PrefixEnd([]byte(FullKey("pods/")))
+	p1, err := srv.Range(ctx, &etcdserverpb.RangeRequest{Key: []byte(FullKey("pods/")), RangeEnd: end, Limit: 2})
+	if err != nil || len(p1.Kvs) != 2 {
+		return false, fmt.Sprintf("first page: %v %v", p1, err)
+	}
+	last := p1.Kvs[len(p1.Kvs)-1].Key
+	p2, err := srv.Range(ctx, &etcdserverpb.RangeRequest{Key: append(append([]byte{}, last...), 0), RangeEnd: end, Limit: 2, Revision: p1.Header.Revision})
+	if err != nil {
+		return true, fmt.Sprintf("the second page of a paginated list (range starting at lastKey+\"\\x00\") is refused: %v", err)
+	}
+	var keys []string
+	for _, kv := range p2.Kvs {
+		keys = append(keys, string(kv.Key))
+	}
+	if len(keys) != 1 || keys[0] != FullKey("pods/c") {
+		return true, fmt.Sprintf("second page of a paginated list (range starting at %q) returned %q; etcd returns only %q", string(last)+"\x00", keys, FullKey("pods/c"))
+	}
+	return false, ""
+}
+
 func probeC16CountLimited() (bool, string) {
 	env, srv, err := c16ProbeEnv()
 	if err != nil {
@@ -683,10 +735,11 @@ func probeC16CountLimited() (bool, string) {
 
 func init() {
 	specC16.Probes = map[string]func() (bool, string){
-		"guarded-delete-revision-zero": probeC16GuardedDeleteRev0,
-		"unguarded-delete-missing-key": probeC16UnguardedDeleteMissing,
-		"count-of-limited-range":       probeC16CountLimited,
-		"unsupported-shape-executed":   probeC16UnsupportedExecuted,
+		"guarded-delete-revision-zero":        probeC16GuardedDeleteRev0,
+		"unguarded-delete-missing-key":        probeC16UnguardedDeleteMissing,
+		"continue-key-returns-last-key-again": probeC16ContinueKey,
+		"count-of-limited-range":              probeC16CountLimited,
+		"unsupported-shape-executed":          probeC16UnsupportedExecuted,
 	}
 }
 
